@@ -478,7 +478,14 @@ def check(run: Run) -> None:
     run.rule("C08.R3", "honest flag: whenever the parser reported an error, has_errors is set before walk_zorg_page returns")
     run.rule("C08.R4", "refusal tables: create/reindex raise exactly for has_errors and not whitelisted (and not --update), before committing the page")
     run.rule("C08.R5", "all-or-nothing: parsing precedes the walk; with errors no note is appended; every reported syntax error is recorded")
+    run.rule("C08.R6", "a valid page is indexable: the tag lists handed to the index are duplicate-free (its link tables are unique per note and tag, a duplicate aborts `db create` on a page "
+             "without syntax errors) -- the scope scenario of C02.R2, adopted")
     ts = run_file_typestate(run.repo, model)
+    from .c02 import scope_scenarios
+
+    sub2 = Run("C02", run.tier, run.repo)
+    scope_scenarios(sub2, model, ts.tree0)
+    run.floor("adopted scope-scenario obligations", run.adopt(sub2, ("C02.R2",), "C08.R6"), 10)
     for w in ts.imprecise:
         run.undecided("C08.R1", "typestate", w)
     by = {}
